@@ -34,6 +34,7 @@ func runC21(c *Ctx) {
 	r.Rule("C21.R3", "the closed flag swap and the graceful flag read+write happen in one critical section of pc.mu; every channel wait in close() is outside pc.mu", 3)
 	r.Rule("C21.R5", "no connection goroutine outlives GracefulClose through the operations queue: the worker is only re-spawned while the queue is not closed, and nothing is accepted into a closed queue (the worker-lifecycle rules C05.R2 and C05.R4, re-evaluated here)", 8)
 	r.Rule("C21.R6", "DataChannel.close(graceful): every return is preceded by a wait on the read loop's completion channel (a receive, or a defer of one) unless a branch established `!graceful` or `channel == nil`: GracefulClose does not return while the data-channel read loop goroutine is running", 1)
+	r.Rule("C21.R7", "same rule as C05.R6: every return of a graceful PeerConnection.close is preceded by pc.ops.GracefulClose() (the queue is closed and its running operation waited for), also for a caller that lost the isClosed swap to a plain Close()", 1)
 	r.Rule("C21.R4", "idpLoginURL is never assigned (so the identity-provider early returns cannot pre-empt the closed check)", 0)
 	r.NotCovered = append(r.NotCovered, "liveness: that every Close/GracefulClose call returns", "goroutine census after GracefulClose", "a non-closed connection state reported by an updateConnectionState call that loaded isClosed before close() (C22 covers the table itself)")
 	r.Trusted = append(r.Trusted, "absint soundness on the supported fragment", "sync/atomic Bool.Swap is atomic")
@@ -124,6 +125,7 @@ func runC21(c *Ctx) {
 	c21Close(c)
 	c05ForC21(c, "C21.R5")
 	c21R6(c) // c21b.go
+	c05R6(c, "C21.R7") // c05b.go
 }
 
 func c21Close(c *Ctx) {
